@@ -1958,6 +1958,7 @@ func runC12(tier, replay string) int {
 	r.Extra("forms_outside_the_documented_language(not judged)", beyond)
 	r.Extra("fuzz_alphabet", "\" ' : space tab , - a-z A-Z é ß 中 (plus qualifier words in one of four mixes; the fourth is grammar-shaped: tokens of 1..4 parts, parts bare or quoted with content from the whole alphabet, now and then damaged)")
 
+	r.Extra("added_in_seeding_round_6", "per population, after the battery: one person renamed through the live cache (new identity version, committed), then author:/actor:/participant: with the former and the new name and 10 random queries against the reference evaluator told the new name")
 	return r.Finish("(a) seeded random strings through query.Parse under recover, shape = which of {double quote, single quote, colon, whitespace, non-ASCII} occur x length class x accepted/rejected; each string is also read by the reference reader of the documented grammar (refmodel/querylex.go, three-valued): well-formed => must be accepted with that meaning, malformed => must be rejected, otherwise not judged; (b) structured queries rendered per doc/queries.md and re-parsed, shape = qualifier kinds x sort x quote styles x non-ASCII x most syntax-like feature of the values; values include what is syntax outside of quotes (':', runs of ':', leading/trailing ':', qualifier names, the other quote character, white space at the edges, ',', '-' and other operator characters), in both quote styles, for every free-valued qualifier, metadata keys and values and free-text terms: a fixed battery of every listed value x every position, then random queries; malformed inputs per class, alone and inside valid context, also next to such quoted values; (c) populations of 10..40 bugs from two replicas opened through RepoCache, whose titles, labels, creation metadata and author names contain the same sequences; generated queries evaluated by RepoCache.Bugs().Query and by the reference evaluator, shape = qualifier kinds x sort x result-size class x syntax feature; a query case is non-trivial when it has a filter or search term and a non-empty expected result, or a sort and >= 2 expected results; (d) the command line as a client of the same populations (cache closed, repository unlocked): `git-bug bug --format id <arguments>` run from the binary of the tree under test with the arguments a POSIX shell delivers when the documented query text is typed after `git bug` (one argument per token: bare words as they are, multi-word values with their quotes removed by the shell, values without white space that need quotes with their quotes), the sort as a qualifier or as --by/--direction in turn: a fixed battery per population (every qualifier x every argument class, alone and between other arguments) and a sample of the queries of (c), those with an argument that is more than a bare word first; the printed id list is judged like the answer of the library (set, duplicates, order); rejection, crash or anything but ids on stdout is a violation; shape = qualifier kinds x sort (and how it travels) x result-size class x most demanding argument class",
 		r.Pick(800, 5000), []string{
 			"documented language = doc/queries.md plus metadata:key:value; a value is a bare word (no white space, ':' or quote character) or a quoted string; between the quotes every character other than the enclosing quote is data (no escape mechanism); qualifiers in lower case",
